@@ -655,6 +655,13 @@ def run_case(ctx, case, drv, want_reference=True, guard_checks=True):
                     info['triggers'].add('stale-published')
             if kind == 'joinfail':
                 ref_ok = False
+            if tspec.get('join') and not join_satisfied(sidx, s0, tgt):
+                # a join failed by its inbound tasks that is rerun DIRECTLY (also one that already ran an action in
+                # an earlier such rerun, or a sub-workflow join that never got a child execution): the engine runs
+                # it without its preconditions; a run in which it "produced its new result the first time" does not
+                # exist, so there is no reference outcome
+                ref_ok = False
+                res.feats.add('join-rerun-preconditions-unsatisfied')
         else:
             ref_ok = False
         # ---- model: the command
